@@ -530,6 +530,61 @@ Proof.
   rewrite (Q _ _ X) in Z. discriminate.
 Qed.
 
+(* ---------- several adapters: a good run of the product is a good run of the adapter machine on every component ---------- *)
+Lemma mstep_proj ms al ms' : mstep ms al = Some ms' -> forall a s, nth_error ms a = Some s ->
+  (a = fst al /\ exists s', step s (snd al) = Some s' /\ nth_error ms' a = Some s') \/
+  (a <> fst al /\ nth_error ms' a = Some s).
+Proof.
+  unfold mstep. intros E a s H. destruct (nth_error ms (fst al)) as [s0|] eqn:E0; [|discriminate].
+  destruct (step s0 (snd al)) as [s1|] eqn:E1; [|discriminate]. inversion E; subst ms'.
+  rewrite nth_error_upd. destruct (Nat.eqb (fst al) a) eqn:Eq.
+  - apply Nat.eqb_eq in Eq. subst a. left. split; auto. rewrite E0 in H. inversion H; subst s0. exists s1. rewrite E0. auto.
+  - apply Nat.eqb_neq in Eq. right. split; auto.
+Qed.
+
+Theorem mgood_run_proj ls : forall ms ms', mgood_run ms ls = true -> mrun ms ls = Some ms' ->
+  forall a s, nth_error ms a = Some s ->
+  exists pls s', nth_error ms' a = Some s' /\ run s pls = Some s' /\ good_run s pls = true.
+Proof.
+  induction ls as [|al ls IH]; intros ms ms' G R a s H; cbn [mgood_run mrun] in G, R.
+  - inversion R; subst ms'. exists [], s. auto.
+  - apply andb_prop in G. destruct G as [G1 G2]. destruct (mstep ms al) as [ms1|] eqn:E1; [|discriminate].
+    destruct (mstep_proj _ _ _ E1 _ _ H) as [[Ea [s1 [S1 N1]]]|[Ea N1]].
+    + destruct (IH _ _ G2 R _ _ N1) as [pls [s' [A [B C]]]].
+      exists (snd al :: pls), s'. split; auto. cbn [run good_run]. rewrite S1. split; auto.
+      apply andb_true_intro. split; auto.
+      unfold mgoodb in G1. unfold goodb. destruct (snd al); auto.
+      apply andb_prop in G1. destruct G1 as [Z F]. rewrite Z. cbn [andb].
+      rewrite forallb_forall in F. apply F. eapply nth_error_In; eauto.
+    + apply (IH _ _ G2 R _ _ N1).
+Qed.
+
+Lemma mrun_length ls : forall m0 ms, mrun m0 ls = Some ms -> length ms = length m0.
+Proof.
+  induction ls as [|al ls IH]; intros m0 ms R; cbn [mrun] in R; [inversion R; auto|].
+  destruct (mstep m0 al) as [m1|] eqn:E; [|discriminate]. rewrite (IH _ _ R).
+  unfold mstep in E. destruct (nth_error m0 (fst al)) as [s0|]; [|discriminate]. destruct (step s0 (snd al)); [|discriminate].
+  inversion E. apply upd_length.
+Qed.
+
+Lemma nth_error_repeat_lt {A} (x : A) n a : (a < n)%nat -> nth_error (repeat x n) a = Some x.
+Proof. revert a. induction n; intros [|a] H; cbn; try lia; auto. apply IHn. lia. Qed.
+
+(* hence every connection of a trace accepted by [maccepts] is a good run of the adapter machine from [init]: the theorems
+   of this file (routing, own_entry, cleanup ...) apply to what was observed *)
+Corollary maccepts_components n ls obs snaps lft : maccepts (n, ls, obs, snaps, lft) = true ->
+  exists ms, mrun (repeat init n) ls = Some ms /\
+    forall a s', nth_error ms a = Some s' -> exists pls, run init pls = Some s' /\ good_run init pls = true.
+Proof.
+  unfold maccepts. intros H. apply andb_prop in H. destruct H as [H1 H2]. apply andb_prop in H1. destruct H1 as [G _].
+  destruct (mrun (repeat init n) ls) as [ms|] eqn:R; [|discriminate]. exists ms. split; auto.
+  intros a s' Hs.
+  pose proof (mrun_length _ _ _ R) as L. rewrite repeat_length in L.
+  assert (Ha : (a < n)%nat) by (rewrite <- L; eapply nth_lt; eauto).
+  destruct (mgood_run_proj _ _ _ G R a init (nth_error_repeat_lt _ _ _ Ha)) as [pls [s'' [A [B C]]]].
+  rewrite Hs in A. inversion A; subst s''. exists pls. auto.
+Qed.
+
 (* what a caller can come back with: the reply carrying its own id, the timeout, a send error, or (one-way) nothing *)
 Theorem outcome_cases ls s k c o : run init ls = Some s -> nth_error (calls s) k = Some c -> c_pc c = CRet o ->
   o = OTimeout \/ o = OErr \/ o = OOneWay \/ exists p, o = OReply p /\ p_id p = c_id c /\ p_id p <> 0 /\ p_oneway p = false.
